@@ -89,11 +89,28 @@ static uint64_t heap_live;
 
 /* ---- low level ---------------------------------------------------------- */
 
+/* Hand-off words: 0 = wait, 1 = go, 2 = waiter sleeps in the kernel.  A short
+   spin before sleeping saves the wake-up IPI in the common case that the turn
+   comes back within microseconds. */
+static int spin_iters = 0;
+
 static void
 fwait_raw(int *w)
 {
-  while (__atomic_load_n(w, __ATOMIC_ACQUIRE) == 0)
-    syscall(SYS_futex, w, FUTEX_WAIT_PRIVATE, 0, NULL, NULL, 0);
+  int i, v;
+  for (i = 0; i < spin_iters; i++) {
+    if (__atomic_load_n(w, __ATOMIC_ACQUIRE) == 1)
+      goto got;
+    __builtin_ia32_pause();
+  }
+  for (;;) {
+    v = 0;
+    if (__atomic_compare_exchange_n(w, &v, 2, 0, __ATOMIC_ACQ_REL, __ATOMIC_ACQUIRE) || v == 2)
+      syscall(SYS_futex, w, FUTEX_WAIT_PRIVATE, 2, NULL, NULL, 0);
+    if (__atomic_load_n(w, __ATOMIC_ACQUIRE) == 1)
+      break;
+  }
+got:
   __atomic_store_n(w, 0, __ATOMIC_RELAXED);
 }
 
@@ -110,8 +127,8 @@ fwait(int *w)
 static void
 fwake(int *w)
 {
-  __atomic_store_n(w, 1, __ATOMIC_RELEASE);
-  syscall(SYS_futex, w, FUTEX_WAKE_PRIVATE, 1, NULL, NULL, 0);
+  if (__atomic_exchange_n(w, 1, __ATOMIC_ACQ_REL) == 2)
+    syscall(SYS_futex, w, FUTEX_WAKE_PRIVATE, 1, NULL, NULL, 0);
 }
 
 static void
@@ -1069,6 +1086,8 @@ main_wrapper(void *a)
 void
 vs_inproc_init(int argc, char **argv)
 {
+  if (getenv("VS_SPIN"))
+    spin_iters = atoi(getenv("VS_SPIN"));
   size_t nd = __stop_lbz_data - __start_lbz_data, nb = __stop_lbz_bss - __start_lbz_bss;
   vs_inproc = 1;
   l_argc = argc;
@@ -1112,6 +1131,4 @@ vs_inproc_run(void)
     close(FDS[--nfds]);
   __fpurge(stderr);
   __fpurge(stdout);
-  for (i = 0; i < VS_MAXT; i++)
-    GO[i] = 0;
 }
